@@ -33,6 +33,8 @@ from models import arrays as am
 
 ID = "C16"
 RULE = (
+    "[representations] every index query is also made as numpy.float64 and (whole numbers) as Python int / numpy.int64; single writes are repeated on "
+    "column-major arrays and on transposed views. "
     "range: every (start, step, n, stop = start + (n - k/4)*step for k in 0..3, constructor form) of the stated "
     "alphabets, stop being the double nearest to the intended real number; non-trivial when n >= 2. "
     "index: every axis (start, step, n <= 10) x every query (each coordinate, its two neighbouring doubles, every "
